@@ -149,6 +149,19 @@ class Evaluator:
                     out.append((f, c))
         return sorted(out, key=lambda t: (t[0].mod.name, t[1].lineno))
 
+    def raw_call_sites(self) -> List[Tuple[Func, ast.Call, Func]]:
+        """Calls from outside the evaluator to one of its inner functions (not the public entry)."""
+        member = {f.key: f for f in self.members}
+        out = []
+        for f in self.prog.funcs.values():
+            if f.key in member:
+                continue
+            for c in self.prog.calls_in(f):
+                r = self.prog.resolve_call(c.func, f.mod, f)
+                if r and r[0] == "fn" and r[1].key in member and r[1].key != self.entry.key:
+                    out.append((f, c, r[1]))
+        return sorted(out, key=lambda t: (t[0].mod.name, t[1].lineno))
+
     # ------------------------------------------------------------------ whitelist of invoked builtins
     def builtin_guard_sets(self) -> List[Tuple[Func, ast.AST, str]]:
         """Set expressions deciding which builtins are invoked: `X.id in <SET>` dominating getattr(builtins, ..)(..)
